@@ -221,6 +221,10 @@ def isUpper (b : UInt8) : Bool := 65 ≤ b.toNat && b.toNat ≤ 90
 def lowerNameOk (n : Bytes) : Bool :=
   !n.isEmpty && n.length ≤ 65535 && n.all (fun b => tchar b && !isUpper b)
 
+/-- a field name in any case (HTTP/1 form, e.g. `Grpc-Status`) -/
+def anyCaseNameOk (n : Bytes) : Bool :=
+  !n.isEmpty && n.length ≤ 65535 && n.all tchar
+
 /-- a field value in its canonical form: legal bytes, no leading space -/
 def plainValueOk (v : Bytes) : Bool := fieldValueOk v && v.head? != some 32
 
